@@ -10,6 +10,10 @@ import (
 )
 
 func main() {
+	if len(os.Args) > 2 && os.Args[1] == "gen" {
+		genMain()
+		return
+	}
 	u := ref.NewUniverse()
 	u.AddSource(gen.FxA, gen.FxASrc)
 	u.AddSource(gen.FxB, gen.FxBSrc)
